@@ -14,8 +14,9 @@ KINDS = ["n", "xi", "xn"]     # XalanSourceTree, Xerces wrapper indexed / not in
 def gen_elem(r, depth, maxch, maxattr):
     name = r.choice(["a", "b", "c", "d"])
     attrs = [(a, r.choice(["1", "2", "x", ""])) for a in r.sample(["x", "y", "z", "w", "id"], r.randrange(0, maxattr + 1))]
-    if r.random() < 0.1:
-        attrs.insert(r.randrange(0, len(attrs) + 1), ("xmlns:p", "urn:p"))
+    for decl, uri, prob in (("xmlns:p", "urn:p", 0.25), ("xmlns:q", r.choice(["urn:q", "urn:p"]), 0.2), ("xmlns", r.choice(["urn:d", "urn:d", ""]), 0.12)):
+        if r.random() < prob:
+            attrs.insert(r.randrange(0, len(attrs) + 1), (decl, uri))
     children = []
     if depth > 0:
         last_text = False
@@ -52,21 +53,24 @@ class DocInfo:
 
     def __init__(self, top, kind):
         self.top, self.kind = top, kind
-        self.kinds, self.parent = ["doc"], [-1]
+        self.kinds, self.parent, self.names = ["doc"], [-1], [""]
         first = [True]
         shape = []
 
         def go(t, par):
             me = len(self.kinds)
             self.kinds.append({"e": "elem", "t": "text", "c": "comment", "p": "pi"}[t[0]]); self.parent.append(par)
+            self.names.append(t[1] if t[0] == "e" else "")
             na = 0
             if t[0] == "e":
-                na = len(t[2])
+                anames = [(a, v) for a, v in t[2]]
                 if first[0] and kind == "n":
-                    na += 1           # XalanSourceTree puts the xmlns:xml declaration on the document element
+                    # XalanSourceTree puts the xmlns:xml declaration on the document element, before the others
+                    anames.insert(0, ("xmlns:xml", "http://www.w3.org/XML/1998/namespace"))
                 first[0] = False
-                for _ in range(na):
-                    self.kinds.append("attr"); self.parent.append(me)
+                na = len(anames)
+                for a, v in anames:
+                    self.kinds.append("attr"); self.parent.append(me); self.names.append((a, v))
             shape.append("%d(" % na)
             if t[0] == "e":
                 for c in t[3]:
@@ -328,6 +332,7 @@ def oracle_history(ops, states, comparable=None):
 # ---------------------------------------------------------------------------------------------
 # XPath-level oracle: results in document order without duplicates; union laws
 
+NSAX = "namespace"
 AX = ["child", "descendant", "descendant-or-self", "parent", "ancestor", "ancestor-or-self", "following", "preceding",
       "following-sibling", "preceding-sibling", "attribute", "self"]
 
@@ -338,8 +343,9 @@ def gen_path(r):
     for k in range(nsteps):
         # the attribute axis only as the last step, and never an attribute as context node: the Xerces wrapper
         # exposes the Text children of attributes to the child/descendant axes (reported separately, not C12)
-        ax = r.choice(AX if k == nsteps - 1 else [a for a in AX if a != "attribute"])
-        test = r.choice(["*", "*", "node()", "node()", "node()", "a", "b", "text()", "comment()"]) if ax != "attribute" else r.choice(["*", "*", "x", "node()"])
+        ax = r.choice(AX + [NSAX, NSAX] if k == nsteps - 1 else [a for a in AX if a != "attribute"])
+        test = (r.choice(["*", "*", "node()", "p", "q"]) if ax == NSAX else
+                r.choice(["*", "*", "node()", "node()", "node()", "a", "b", "text()", "comment()"]) if ax != "attribute" else r.choice(["*", "*", "x", "node()"]))
         pred = r.choice(["", "", "", "", "", "", "[1]", "[last()]", "[position()>1]", "[position()<3]", "[@x]", "[2]"])
         steps.append("%s::%s%s" % (ax, test, pred))
     p = "/".join(steps)
@@ -350,9 +356,77 @@ def gen_path(r):
         return "//" + p
     if k < 0.5:
         return r.choice(["/", ".", "..", "//@*", "//node()", "/*", "//*", "//text()", "../*", ".//*", "//*/@*", "//*[last()]", "//*/.."])
-    if k < 0.58 and "attribute::" not in p:
+    if k < 0.58 and "attribute::" not in p and "namespace::" not in p:
         return "(%s)%s" % (p, r.choice(["[1]", "[last()]", "[position()>1]"]))
     return p
+
+
+def in_scope_namespaces(doc, e):
+    """how many in-scope declaration attributes each ancestor-or-self element of e carries (nearest declaration per
+    prefix; xmlns="" hides the default): {element: count}.  Counts, not positions: the order of the attributes of one
+    element is the DOM's business (Xerces sorts them by name) and is only known to the driver."""
+    found, out = set(), {}
+    cur = e
+    while cur > 0:
+        for i in range(doc.n):
+            if doc.parent[i] == cur and doc.kinds[i] == "attr":
+                a, v = doc.names[i]
+                if (a == "xmlns" or a.startswith("xmlns:")) and (a, cur) not in found and not any(x == a for x, _ in found):
+                    found.add((a, cur))
+                    if not (a == "xmlns" and v == ""):
+                        out[cur] = out.get(cur, 0) + 1
+        cur = doc.parent[cur]
+    return out
+
+
+def per_element(doc, ids):
+    out = {}
+    for i in ids:
+        out[doc.parent[i]] = out.get(doc.parent[i], 0) + 1
+    return out
+
+
+NS_EXPRS = ["namespace::*", "namespace::node()", "namespace::*[1]", "namespace::*[2]", "namespace::*[last()]", "namespace::*[position()>1]",
+            "namespace::* | namespace::*", "namespace::* | @*", "@* | namespace::*", "@*", "../namespace::*", "../namespace::* | namespace::*",
+            "namespace::* | . | node()", ". | node()", "//*/namespace::*", "(//*/namespace::*)[2]", "//*/namespace::* | //*/namespace::*",
+            "namespace::* | //@*", "//@*", "ancestor-or-self::*/@*"]
+
+
+def oracle_ns(doc, ctxnode, outs):
+    if len(outs) != len(NS_EXPRS):
+        return "driver printed %d results for %d expressions" % (len(outs), len(NS_EXPRS))
+    res = []
+    for e, o in zip(NS_EXPRS, outs):
+        v = parse_ids(o)
+        if v is None:
+            return "%s -> %s" % (e, o)
+        if not strictly(v, True):
+            return "%s -> %s is not strictly ascending in document order (or holds a node twice)" % (e, o)
+        res.append([i for _, i in v])
+    base = res[0]
+    want = in_scope_namespaces(doc, ctxnode)
+    if any(doc.kinds[i] != "attr" for i in base) or set(base) & set(res[19]) or per_element(doc, base) != want:
+        return "namespace::* -> %s: not the in-scope declaration attributes (expected per element %s; ordinary attributes %s)" % (outs[0], want, outs[19])
+
+    def eq(k, expect):
+        if res[k] != expect:
+            return "%s -> %s, expected %s (namespace::* -> %s)" % (NS_EXPRS[k], outs[k], expect, outs[0])
+    U = lambda *ls: sorted(set(x for l in ls for x in l))
+    allns = res[14]
+    wantall = {}
+    for e in range(doc.n):
+        if doc.kinds[e] == "elem":
+            k = in_scope_namespaces(doc, e).get(e, 0)
+            if k:
+                wantall[e] = k
+    if set(allns) & set(res[18]) or per_element(doc, allns) != wantall:
+        return "//*/namespace::* -> %s: not the declaration attributes of the document (expected per element %s)" % (outs[14], wantall)
+    for m in (eq(1, base), eq(2, base[:1]), eq(3, base[1:2]), eq(4, base[-1:]), eq(5, base[1:]), eq(6, base),
+              eq(7, U(base, res[9])), eq(8, U(base, res[9])), eq(11, U(base, res[10])), eq(12, U(base, res[13])),
+              eq(15, allns[1:2]), eq(16, allns), eq(17, U(base, res[18]))):
+        if m:
+            return m
+    return None
 
 
 def x_case(cid, doc, ctxnode, exprs):
@@ -360,7 +434,7 @@ def x_case(cid, doc, ctxnode, exprs):
 
 
 def parse_ids(s):
-    if s in ("err", "notnodeset") or "?" in s:
+    if s in ("err", "notnodeset") or "?" in s or "!" in s:
         return None
     return [parse_node(t) for t in s.split(",") if t]
 
@@ -511,6 +585,11 @@ def make_cases(ctx, scale, impl=None):
             nonattr = [i for i in range(doc.n) if doc.kinds[i] != "attr"]
             ctxnode = r.choice(nonattr[len(nonattr) // 2:] if r.random() < 0.6 else nonattr)   # late nodes: long reverse axes
             xjobs.append((doc, ctxnode, [gen_path(r) for _ in range(36)]))
+            elems = [i for i in range(doc.n) if doc.kinds[i] == "elem"]
+            deep = sorted(elems, key=lambda e: -sum(in_scope_namespaces(doc, e).values()))[:3]
+            for e in set(deep + [r.choice(elems)]):
+                add("X", "nsaxis:%s:%d-in-scope" % (kind, min(sum(in_scope_namespaces(doc, e).values()), 4)),
+                    lambda cid, doc=doc, e=e: x_case(cid, doc, e, NS_EXPRS), docs=[doc], exprs=NS_EXPRS, nsctx=e)
         # several documents: blocks per document in order of first appearance (F7 was repaired by ea5de2f; a recurrence is a violation)
         for kinds in (["n", "n"], ["xi", "xn"], ["xn", "xn", "xi"], ["n", "n", "n"]):
             tops = [top] + [gen_doc(r, "small") for _ in kinds[1:]]
@@ -607,7 +686,7 @@ def evaluate(ctx, cases, impl, model):
             outs = ri.split(";")
             ctx.cov["evaluations"] += len(outs)
             seen.add(ri)
-            msg = oracle_x(c["exprs"], outs)
+            msg = oracle_ns(c["docs"][0], c["nsctx"], outs) if "nsctx" in c else oracle_x(c["exprs"], outs)
             if msg:
                 orc.append({"case": c["line"] + "\n#   expressions: " + " ;; ".join(c["exprs"]), "what": msg, "known": None, "cls": c["cls"]})
     ctx.cov["distinct_nontrivial"] = ctx.cov.get("distinct_nontrivial", 0) + len(seen)
